@@ -142,6 +142,9 @@ func readInput(doc []byte, conf *model.Configuration) (ctx *model.Context, bindD
 		if e = ctx.BindNameTrees(); e != nil {
 			return fmt.Errorf("BindNameTrees: %w", e)
 		}
+		// the writer's own BindNameTrees call then finds nothing left to do (it would otherwise
+		// re-create the same nodes under new object numbers)
+		ctx.Names = map[string]*model.Node{}
 		n2, e := nameTrees(ctx)
 		if e != nil {
 			return e
@@ -228,8 +231,23 @@ func trunc(s string) string {
 // object holds them: an undecoded object stream member (copied verbatim by
 // writeLazyObjectStreamObject), the catalog, a page tree node, a page (entries the writer
 // does not list), or something else.
-func classifyGraphDiff(before, after *snapshot, dangAfter []int) string {
+func classifyGraphDiff(before, after *snapshot, dangAfter []int, c wconf) string {
 	if len(dangAfter) == 0 {
+		// only the content token of a stream differs?
+		bc, ac := before.canon, after.canon
+		for i := 0; i < len(bc) && i < len(ac); i++ {
+			if bc[i] != ac[i] {
+				bi, ai := strings.LastIndex(bc[i], ">>"), strings.LastIndex(ac[i], ">>")
+				if strings.Contains(bc[i], "=stream<<") && bi > 0 && bi == ai && bc[i][:bi] == ac[i][:ai] {
+					if c.eol == types.EolCR {
+						// "stream" CR followed by data that starts with LF is read back as CR LF + shifted data
+						return "eol-cr-stream-content-changed"
+					}
+					return "stream-content-changed"
+				}
+				break
+			}
+		}
 		return "graph-changed"
 	}
 	kinds := map[string]bool{}
@@ -307,6 +325,7 @@ func runDoc(r *vh.Run, dc docCase, configs []wconf) {
 	}
 	var refText string
 	var refConf string
+	failSent := false
 	for ci, c := range configs {
 		ctx1, bindDiff, err := readInput(dc.doc, c.conf())
 		if err == nil && bindDiff != "" && ci == 0 {
@@ -335,7 +354,12 @@ func runDoc(r *vh.Run, dc docCase, configs []wconf) {
 			} else {
 				// the property speaks about documents pdfcpu has written
 				r.Count("write-error")
-				if ci == 0 {
+				if c.enc != "" {
+					// may be due to the encryption parameters (PDF 2.0 demands AES-256)
+					continue
+				}
+				if !failSent {
+					failSent = true
 					r.Case("write", []string{before.tv.wire(), vh.Int(int64(before.root)), infoArg(before), vh.Bool(before.rootVer), "100"}, "fail")
 				}
 			}
@@ -367,7 +391,7 @@ func runDoc(r *vh.Run, dc docCase, configs []wconf) {
 		graphSame := strings.Join(bc, "\n") == strings.Join(ac, "\n")
 		if !graphSame {
 			ok = false
-			r.OracleFail(classifyGraphDiff(before, after, newDang), input(c), fmt.Sprintf("new dangling references %v; %s", newDang, firstDiff(bc, ac)))
+			r.OracleFail(classifyGraphDiff(before, after, newDang, c), input(c), fmt.Sprintf("new dangling references %v; %s", newDang, firstDiff(bc, ac)))
 		}
 		if len(before.pages) != len(after.pages) {
 			ok = false
